@@ -3,5 +3,6 @@ CONSTANTS
   CheckTrailer = TRUE
   UpdateWatchdog = FALSE
   WaitOrigins = FALSE
+  CallerCtx = TRUE
   Bound = 10
 INVARIANT Explained
